@@ -17,7 +17,7 @@ try:
     repo = os.path.join(tmp, "repo")
     os.makedirs(repo)
     for f in ("src", "Cargo.toml", "Cargo.lock"):
-        s = os.path.join("/repo", f)
+        s = os.path.join(os.environ.get("DMX_SRC_REPO") or "/repo", f)
         (shutil.copytree if os.path.isdir(s) else shutil.copy)(s, os.path.join(repo, f))
     r = subprocess.run(["patch", "-p1", "-s"] + (["-R"] if rev else []) + ["-i", patch], cwd=repo, stdout=subprocess.PIPE, stderr=subprocess.STDOUT, text=True)
     if r.returncode != 0:
